@@ -585,10 +585,17 @@ func (p *Polygon) LastDescendant(k int) int {
 }
 
 // CapBound returns a bounding spherical cap.
-func (p *Polygon) CapBound() Cap { return p.bound.CapBound() }
+func (p *Polygon) CapBound() Cap { return p.RectBound().CapBound() }
 
 // RectBound returns a bounding latitude-longitude rectangle.
-func (p *Polygon) RectBound() Rect { return p.bound }
+func (p *Polygon) RectBound() Rect {
+	if p.index == nil {
+		// The zero value is the empty polygon; its bound field is the zero
+		// Rect, the single point (0, 0), not the empty rectangle.
+		return EmptyRect()
+	}
+	return p.bound
+}
 
 // ContainsPoint reports whether the polygon contains the point.
 func (p *Polygon) ContainsPoint(point Point) bool {
